@@ -31,7 +31,7 @@ ASSUMPTIONS = ["simulated schedulers; scancel exits 0 even on failure and report
 SITUATIONS = ["never", "pending", "running", "finished_ok", "finished_bad", "cancelled"]
 
 
-QUICK_BUDGET = {"cases": 400, "deadline_s": 100, "case_timeout_s": 120, "floors": {"cancel_runs": 380, "cancel_cmds_checked": 500, "faults_injected": 100, "followup_runs": 250, "pool_cancels": 4}}
+QUICK_BUDGET = {"cases": 400, "deadline_s": 170, "case_timeout_s": 120, "floors": {"cancel_runs": 140, "cancel_cmds_checked": 296, "faults_injected": 32, "followup_runs": 121, "pool_cancels": 4}}
 THOROUGH_FACTOR = 18  # thorough = the same workload with 18x the cases (floors scale along)
 
 
